@@ -579,6 +579,8 @@ func c07Edges(cfg Config, res *Result) {
 }
 
 func suiteC07(cfg Config, res *Result) {
+	defer c07Debug(res)
+	defer c07ZeroDivisors(res)
 	defer routesAgree(res, "semantics", "c07-routes", []string{
 		"{{ 7 - 2 * 3 }}|{% if 1 < 2 && a %}T{% else %}F{% endif %}|{{ 2 ^ 3 ^ 2 }}|{{ 9 / 2.0 }}|{{ \"a\" + 1 }}",
 		"{{ 7 + 2 * 3 }}|{% if 1 > 2 || b %}T{% else %}F{% endif %}|{{ 2 * 3 * 2 }}|{{ 9 % 2.0 }}|{{ \"b\" + 1 }}",
